@@ -38,6 +38,12 @@ type Config struct {
 	Lenient    bool    // replay: an unavailable recorded choice falls back to the default instead of ending the run as diverged
 	KeepLog    int     // keep the last N events for failure reports (0 = none)
 	SwitchBias float64 // uniform: probability to keep running the current goroutine if runnable
+	// stall (a slow node): the StallG-th foreground goroutine started after the main one is suspended when it
+	// reaches its StallAt-th decision point and stays suspended until nothing else can run (or
+	// StallMax scheduling steps went by); everything else is scheduled as under uniform
+	StallG   int
+	StallAt  uint64
+	StallMax uint64
 }
 
 // Result of one simulated execution.
@@ -115,6 +121,10 @@ type Sched struct {
 	log            []string
 	logPos         int
 	pctChange      map[uint64]bool
+	stallG         *G
+	stallOver      bool
+	stallSteps     uint64
+	stalledSteps   uint64
 	lowPrio        int64
 	defaultGroup   int
 	quiesceWaiters int
@@ -147,6 +157,9 @@ func Run(cfg Config, main func()) Result {
 	}
 	if cfg.Strategy == "" {
 		cfg.Strategy = "uniform"
+	}
+	if cfg.StallMax == 0 {
+		cfg.StallMax = 20000
 	}
 	s := &Sched{
 		cfg:     cfg,
@@ -457,6 +470,37 @@ func (s *Sched) choose(run []*G) *G {
 		return nil
 	}
 	timersOK := len(s.timers) > 0 && s.quiesceWaiters == 0
+	if s.cfg.Strategy == "stall" && !s.stallOver {
+		if s.stallG == nil {
+			n := 0
+			for _, g := range s.gs {
+				if g.group == 0 && g.id != 0 {
+					if n++; n == s.cfg.StallG {
+						s.stallG = g
+					}
+				}
+			}
+		}
+		if v := s.stallG; v != nil && (v.done || s.stallSteps > s.cfg.StallMax) {
+			s.stallOver = true
+		} else if v != nil && v.steps >= s.cfg.StallAt {
+			var others []*G
+			for _, g := range run {
+				if g != v {
+					others = append(others, g)
+				}
+			}
+			if len(others) == len(run) {
+				// the victim is blocked anyway
+			} else if len(others) > 0 {
+				run = others
+				s.stallSteps++
+				s.stalledSteps++
+			} else {
+				s.stallOver = true
+			}
+		}
+	}
 	switch s.cfg.Strategy {
 	case "fifo":
 		return s.chooseFIFO(run)
